@@ -1,4 +1,5 @@
 import WindVerif.Spec.Pool
+import WindVerif.Proofs.PoolMidAux
 /-! Worker lifecycle in the pool model (C04): per-worker invariant and the summary of a worker step. -/
 namespace WindVerif.Pool
 
